@@ -360,12 +360,45 @@ def part_d(level):
                 yield (("D-fwd-top", ik, lk, tk), "(let () (define k0 7) %s %s %s %s)" % (ini, lat, tr, call))
 
 
+def split_top(body):
+    """a program of part E is 'top-level forms || expression': the forms are evaluated at the outermost level before the case"""
+    if " || " in body:
+        tops, expr = body.split(" || ", 1)
+        return tops, expr
+    return "", body
+
+
+def part_e(level):
+    """The outermost level (R7RS 5.3.1): definitions of already bound variables are assignments and may use the old value;
+    procedures compiled earlier see the new value; a variable may be redefined as syntax and back."""
+    progs = [
+        "(define V 1) (define V (+ V 1)) || V",
+        "(define V 1) (define V (+ V 1)) (define V (* V 10)) || V",
+        "(define (V) 10) (define V (let ((old V)) (lambda () (+ 1 (old))))) || (V)",
+        "(define V 5) (define (get-V) V) (define V (list V 'again)) || (list V (get-V))",
+        "(define V 'a) (define (get-V) V) (set! V 'b) (define V (list V)) || (list V (get-V))",
+        "(define V (lambda (n) (if (= n 0) 'done (V (- n 1))))) (define V (let ((prev V)) (lambda (n) (list 'wrapped (prev n))))) || (V 2)",
+        "(define V 1) (define W V) (define V (+ V W)) (define W (+ V W)) || (list V W)",
+        "(define V '(1)) (define V (cons 0 V)) (define V (cons -1 V)) || V",
+        "(define V 1) (define (use) (+ V 1)) (define V 10) || (use)",
+        "(define V (vector 1 2)) (define V (vector-length V)) || V",
+        "(define V 3) (define V (let loop ((i V) (acc '())) (if (= i 0) acc (loop (- i 1) (cons i acc))))) || V",
+        "(define (V x) (* x 2)) (define (V x) (+ 1 (* x 2))) || (V 5)",
+        "(define V 1) (begin (define V (+ V 1)) (define W (+ V 1))) || (list V W)",
+    ]
+    for i, p in enumerate(progs):
+        # unique names per program: the forms are evaluated in one shared top-level environment
+        yield (("E-top", i), p.replace("get-V", "get-v%d" % i).replace("V", "tv%d" % i).replace("W", "tw%d" % i).replace("use", "use%d" % i))
+
+
 def all_programs(level):
     for d, body in part_a(level):
         yield d, body
     for d, e in part_b(level):
         yield d, wrap_b(e)
     for d, body in part_d(level):
+        yield d, body
+    for d, body in part_e(level):
         yield d, body
 
 
